@@ -1,8 +1,275 @@
 import FtDriver.Json
 open Lean (Json)
 namespace FtDriver
-open Ft
+open Ft Ft.Traffic
 
-def handleC17 (_j : Json) : Except String Verdict := throw "C17: not implemented"
+namespace C17
+
+def asNats (j : Json) : Except String (List Nat) := do (← asList j).mapM (·.getNat?)
+def asStrs (j : Json) : Except String (List String) := do (← asList j).mapM (·.getStr?)
+def fBool (j : Json) (k : String) : Except String Bool := do (← field j k).getBool?
+
+/-- a raw row: `n` stamps, `n` coordinates, position -/
+def parseRow (n : Nat) (j : Json) : Except String Row := do
+  let l ← asNats j
+  if l.length ≠ 2 * n + 1 then throw s!"row arity {l.length} for depth {n}"
+  pure ⟨l.take n, (l.drop n).take n, l.getD (2 * n) 0⟩
+
+/-- a combined row: `[ [ints], isWrite ]` -/
+def parseCRow (n : Nat) (j : Json) : Except String CRow := do
+  match (← asList j) with
+  | [r, w] => pure ((← parseRow n r).tag (← w.getBool?))
+  | _ => throw "crow"
+
+def rowJson (r : Row) : Json := jList ((r.stamp ++ r.coords ++ [r.pos]).map jNat)
+def crowJson (r : CRow) : Json := jList [rowJson r.untag, Json.bool r.isWrite]
+
+def optNat (j : Json) : Except String (Option Nat) := if j.isNull then pure none else do pure (some (← j.getNat?))
+
+structure Run where
+  err     : Option String
+  traffic : List (String × Bool × Nat)
+  over    : Nat
+
+def parseRun (j : Json) : Except String Run := do
+  match j.getObjVal? "err" with
+  | .ok e => pure { err := some (← e.getStr?), traffic := [], over := 0 }
+  | .error _ =>
+    let tr ← (← fArr j "traffic").mapM (fun e => do
+      match (← asList e) with
+      | [t, a, v] => pure ((← t.getStr?), (← a.getStr?) == "write", (← v.getNat?))
+      | _ => throw "traffic entry")
+    pure { err := none, traffic := tr, over := (← fNat j "over") }
+
+def tableJson (t : List (String × Bool × Nat)) : Json :=
+  jList (t.map (fun (n, w, v) => jList [Json.str n, Json.str (if w then "write" else "read"), jNat v]))
+
+def sameTable (a b : List (String × Bool × Nat)) : Bool :=
+  a.length == b.length && a.all (fun x => b.contains x)
+
+def parseCase (j : Json) (cache : Bool) : Except String CaseIn := do
+  let tensors ← (← fArr j "tensors").mapM (fun t => do
+    pure ({ name := (← fStr t "name"), ranks := (← asStrs (← field t "ranks")),
+            shape := (← asNats (← field t "shape")) } : TensorIn))
+  let fmts ← (← fArr j "fmts").mapM (fun f => do
+    pure ({ tensor := (← fStr f "tensor"), rank := (← fStr f "rank"),
+            cbits := (← fNat f "cbits"), pbits := (← fNat f "pbits") } : FmtIn))
+  let loopRanks ← (← fArr j "loop_ranks").mapM (fun p => do
+    match (← asStrs p) with
+    | [a, b] => pure (a, b)
+    | _ => throw "loop_ranks")
+  let bindings ← (← fArr j "bindings").mapM (fun b => do
+    pure ({ tensor := (← fStr b "tensor"), rank := (← fStr b "rank"), type := (← fStr b "type"),
+            evictOn := fStrD b "evict_on" "" } : BindIn))
+  let traces ← (← fArr j "traces").mapM (fun t => do
+    let header ← asStrs (← field t "header")
+    let rows ← (← fArr t "rows").mapM (parseRow header.length)
+    pure ({ tensor := (← fStr t "tensor"), rank := (← fStr t "rank"), type := (← fStr t "type"),
+            isWrite := (← fStr t "access") == "write", header, rows } : TraceIn))
+  pure { cache, tensors, fmts, loopRanks, bindings, traces, ls := (← fNat j "ls") }
+
+/-- model run with the shapes the code computes (`stale`) or the binding's own (`!stale`) -/
+def runBuffet (c : CaseIn) (L : Nat) (cfgs : List BindCfg) (cap : Option Nat) (stale : Bool) :
+    List (String × Bool × Nat) × Nat :=
+  let traces := cfgs.map (·.accs stale)
+  let g := buffetRun L (cfgs.map (·.evictEnd)) c.ls cap traces
+  (trafficTable c cfgs (fun i => (g.bs.getD i {}).reads) (fun i => (g.bs.getD i {}).writes), g.over)
+
+def specBuffet (c : CaseIn) (cfgs : List BindCfg) (stale : Bool) : List (String × Bool × Nat) :=
+  let traces := cfgs.map (·.accs stale)
+  trafficTable c cfgs
+    (fun i => c.ls * fillsSpec ((cfgs.map (·.evictEnd)).getD i 0) (traces.getD i []))
+    (fun i => c.ls * writebacksSpec ((cfgs.map (·.evictEnd)).getD i 0) (traces.getD i []))
+
+def runCache (c : CaseIn) (L : Nat) (cfgs : List BindCfg) (cap : Option Nat) (stale : Bool) :
+    Option String × List (String × Bool × Nat) × Nat × Bool :=
+  let traces := cfgs.map (·.accs stale)
+  let s := cacheRun L c.ls cap traces
+  (s.failed, trafficTable c cfgs (getAt s.reads) (getAt s.writes), s.over, s.wrongPop)
+
+def specCache (c : CaseIn) (L : Nat) (cfgs : List BindCfg) (cap : Option Nat) (stale : Bool) :
+    List (String × Bool × Nat) :=
+  let traces := cfgs.map (·.accs stale)
+  let s := refCache c.ls cap {} (schedule L traces)
+  trafficTable c cfgs (getAt s.reads) (getAt s.writes)
+
+/-- "never below one fill per distinct line touched, never above one per access" on a table -/
+def boundsOk (c : CaseIn) (cfgs : List BindCfg) (t : List (String × Bool × Nat)) : Bool :=
+  let traces := cfgs.map (·.accs false)
+  let lo := trafficTable c cfgs (fun i => c.ls * distinctFirstReads [] (traces.getD i []))
+              (fun _ => 0)
+  let hi := trafficTable c cfgs (fun i => c.ls * ((traces.getD i []).filter (fun a => !a.isWrite)).length)
+              (fun i => c.ls * ((traces.getD i []).filter (·.wb)).length)
+  t.all (fun (n, w, v) =>
+    (lo.any (fun (n', w', v') => n' == n && w' == w && v' ≤ v)) &&
+    (hi.any (fun (n', w', v') => n' == n && w' == w && v ≤ v')))
+
+def readsOf (t : List (String × Bool × Nat)) : Nat := ((t.filter (fun x => !x.2.1)).map (·.2.2)).sum
+
+def handle (j : Json) (cache : Bool) : Except String Verdict := do
+  let c ← parseCase j cache
+  let caps ← (← fArr j "caps").mapM optNat
+  let impl ← field j "impl"
+  let runs ← (← fArr impl "runs").mapM parseRun
+  let jit ← match impl.getObjVal? "jit" with
+    | .ok x => if x.isNull then pure none else do pure (some (← parseRun x))
+    | .error _ => pure none
+  if runs.length ≠ caps.length then throw "runs/caps"
+  match configure c with
+  | .error e => return { agree := true, spec := true, tags := ["OUT_OF_MODEL"], why := e }
+  | .ok (L, cfgs) =>
+    let mut agree := true
+    let mut spec := true
+    let mut why := ""
+    let mut models : List Json := []
+    let mut tags : List String := [if cache then "cache" else "buffet", s!"bindings={cfgs.length}", s!"L={L}"]
+    let accsT := cfgs.map (·.accs false)
+    let accsS := cfgs.map (·.accs true)
+    if accsT ≠ accsS then tags := tags ++ ["stale-shape-differs"]
+    if cfgs.any (·.hasWrite) then tags := tags ++ ["writes"]
+    if accsT.any (fun t => t.any (·.staging)) then tags := tags ++ ["staging"]
+    if cfgs.any (fun b => b.epl > 1) then tags := tags ++ ["multi-elem-line"]
+    if cfgs.any (fun b => b.evictEnd > 0) then tags := tags ++ ["evict-rank"]
+    if !cache && cfgs.any (fun b => b.evictEnd = 0) then tags := tags ++ ["evict-root"]
+    if c.loopRanks.length > 0 then tags := tags ++ ["loop-ranks"]
+    if accsT.any (fun t => t.any (·.next.isSome)) then tags := tags ++ ["reuse"]
+    let sched := schedule L accsT
+    let tie := !tieFreeB sched
+    if tie then tags := tags ++ ["stamp-tie"]
+    -- hypotheses of `cache_eq_reference_partial`, evaluated on the code's view of the accesses
+    let schedS := schedule L accsS
+    let hypOk := schedNextOkB schedS && schedOrdB schedS && schedS.all (fun x => !x.2.staging)
+    if cache && hypOk then tags := tags ++ ["cache-thm-applies"]
+    if !(cfgs.zip accsT).all (fun (b, t) => winContigB b.evictEnd t) then tags := tags ++ ["window-not-contiguous"]
+    if !accsT.all (fun t => stampsSortedB (t.map (·.stamp))) then tags := tags ++ ["unsorted-stamps"]
+    let mut prevReads : Option Nat := none
+    let mut inWorld := true         -- model(code's shapes) = reference(code's shapes) for every capacity
+    let mut staleMatters := false   -- reference(code's shapes) ≠ reference(true shapes) somewhere
+    let mut wrongPop := false
+    for (cap, run) in caps.zip runs do
+      -- the model, run with the shapes the code computes
+      let (merr, mtab, mover, mwp) : Option String × List (String × Bool × Nat) × Nat × Bool :=
+        if cache then runCache c L cfgs cap true
+        else
+          let (t, o) := runBuffet c L cfgs cap true
+          (none, t, o, false)
+      -- the specification evaluated on the same (possibly wrong) shapes, and on the true ones
+      let rS := if cache then specCache c L cfgs cap true else specBuffet c cfgs true
+      let stab := if cache then specCache c L cfgs cap false else specBuffet c cfgs false
+      if mwp then wrongPop := true
+      if merr.isSome || !sameTable mtab rS then inWorld := false
+      if !sameTable rS stab then staleMatters := true
+      models := models ++ [Json.mkObj [("cap", match cap with | none => Json.null | some x => jNat x),
+        ("err", match merr with | none => Json.null | some e => Json.str e),
+        ("traffic", tableJson mtab), ("over", jNat mover), ("spec", tableJson stab)]]
+      match run.err, merr with
+      | some e, some m =>
+        if e != "ERR:" ++ m then agree := false
+        spec := false; why := why ++ s!" crash {e};"
+        tags := tags ++ ["impl-crash", "fail:crash"]
+      | some e, none =>
+        agree := false; spec := false; why := why ++ s!" crash {e};"
+        tags := tags ++ ["impl-crash", "fail:crash"]
+      | none, some _ => agree := false
+      | none, none =>
+        if !sameTable run.traffic mtab then agree := false
+        if run.over != mover then tags := tags ++ ["overflow-count-differs"]
+        if run.over > 0 then tags := tags ++ ["overflow"]
+      if run.err.isNone then
+        if !sameTable run.traffic stab then
+          spec := false; why := why ++ " traffic≠spec;"; tags := tags ++ ["fail:traffic"]
+        if !boundsOk c cfgs run.traffic then
+          spec := false; why := why ++ " bounds;"; tags := tags ++ ["fail:bounds"]
+        if cache then
+          match prevReads with
+          | some p => if readsOf run.traffic > p then
+                        spec := false; why := why ++ " fills increased with capacity;"
+                        tags := tags ++ ["fail:monotone"]
+          | none => pure ()
+          prevReads := some (readsOf run.traffic)
+          if readsOf run.traffic > c.ls * (accsT.map (fun t => distinctFirstReads [] t)).sum then
+            tags := tags ++ ["capacity-miss"]
+      if cap == some 0 then tags := tags ++ ["cap0"]
+      if cap.isNone then tags := tags ++ ["cap-inf"]
+    -- attribution of a deviation to the defects the model mirrors
+    if !inWorld && wrongPop then tags := tags ++ ["explained:pinned-pop-other-binding"]
+    if !inWorld && !wrongPop && tie then tags := tags ++ ["explained:stamp-tie"]
+    if !inWorld && !wrongPop && !tie then tags := tags ++ ["MODEL-NOT-SPEC"]
+    if cache && hypOk && !inWorld then tags := tags ++ ["THEOREM-CONTRADICTED"]
+    if inWorld && staleMatters then tags := tags ++ ["explained:stale-shape"]
+    -- line-granularity: the jittered rerun (first capacity) must charge the same
+    match jit, runs.head? with
+    | some jr, some fr =>
+      tags := tags ++ ["jitter"]
+      -- same capacity (the first of the list) on both runs; a crash on both sides is "the same"
+      if jr.err != fr.err || (jr.err.isNone && !sameTable jr.traffic fr.traffic) then
+        spec := false; why := why ++ " position jitter inside a line changed the traffic;"
+        tags := tags ++ ["fail:jitter"]
+    | _, _ => pure ()
+    pure { agree, spec, model := jList models, tags := tags.eraseDups, why }
+
+def handleFilter (j : Json) : Except String Verdict := do
+  let n ← fNat j "n"
+  let nf ← fNat j "nf"
+  let inp ← (← fArr j "inp").mapM (parseRow n)
+  let fil ← (← fArr j "fil").mapM (parseRow nf)
+  let impl ← (← fArr j "impl").mapM (parseRow n)
+  let sortedIn := (inp.zip inp.tail).all (fun (a, b) => lexLt a.coords b.coords)
+  let sortedFil := (fil.zip fil.tail).all (fun (a, b) => lexLe (a.coords.take n) (b.coords.take n))
+  if nf < n || !sortedIn || !sortedFil then
+    return { agree := true, spec := true, tags := ["OUT_OF_MODEL"] }
+  let m := filterTrace inp fil
+  let tags := ["filter", s!"n={n}", s!"nf={nf}"] ++ (if m.isEmpty then ["empty-out"] else []) ++
+    (if m.length < inp.length then ["dropped"] else []) ++ (if inp.isEmpty then ["empty-in"] else []) ++
+    (if fil.isEmpty then ["empty-filter"] else [])
+  pure { agree := decide (m = impl), spec := decide (impl = filterSpec inp fil),
+         model := jList (m.map rowJson), tags }
+
+def handleCombine (j : Json) : Except String Verdict := do
+  let n ← fNat j "n"
+  let rd ← field j "reads"
+  let wr ← field j "writes"
+  let reads ← if rd.isNull then pure [] else do (← asList rd).mapM (parseRow n)
+  let writes ← if wr.isNull then pure [] else do (← asList wr).mapM (parseRow n)
+  let impl ← (← fArr j "impl").mapM (parseCRow n)
+  let m := combine reads writes
+  let tags := ["combine"] ++ (if rd.isNull then ["no-read-file"] else []) ++ (if wr.isNull then ["no-write-file"] else [])
+    ++ (if reads.any (fun r => writes.any (fun w => w.stamp = r.stamp)) then ["stamp-tie"] else [])
+    ++ (if reads.isEmpty then ["empty-reads"] else []) ++ (if writes.isEmpty then ["empty-writes"] else [])
+  pure { agree := decide (m = impl), spec := combineSpecB reads writes impl,
+         model := jList (m.map crowJson), tags }
+
+def handleNextUse (j : Json) : Except String Verdict := do
+  let n ← fNat j "n"
+  let rows ← (← fArr j "rows").mapM (parseCRow n)
+  let mask ← (← fArr j "mask").mapM (·.getBool?)
+  let epl ← fNat j "epl"
+  let impl ← (← fArr j "impl").mapM (fun e => do
+    match (← asList e) with
+    | [r, nx] => do
+      let r ← parseCRow n r
+      let nx ← if nx.isNull then pure none else do pure (some (← parseCRow n nx))
+      pure (r, nx)
+    | _ => throw "nextuse row")
+  if epl = 0 || !mask.contains true || mask.length ≠ n then
+    return { agree := true, spec := true, tags := ["OUT_OF_MODEL"] }
+  let m := nextUse mask epl rows
+  let tags := ["nextuse", s!"epl={epl}"] ++ (if m.any (·.2.isSome) then ["reuse"] else []) ++
+    (if m.any (·.2.isNone) then ["last-use"] else [])
+  pure { agree := decide (m = impl), spec := decide (impl = nextUseSpec mask epl rows),
+         model := jList (m.map (fun (r, nx) => jList [crowJson r, match nx with | none => Json.null | some x => crowJson x])),
+         tags }
+
+end C17
+
+def handleC17 (j : Json) : Except String Verdict := do
+  let op ← fStr j "op"
+  match op with
+  | "buffet" => C17.handle j false
+  | "cache" => C17.handle j true
+  | "filter" => C17.handleFilter j
+  | "combine" => C17.handleCombine j
+  | "nextuse" => C17.handleNextUse j
+  | _ => throw s!"C17: unknown op {op}"
 
 end FtDriver
